@@ -16,7 +16,8 @@ CONFIG = dict(
           "(2) DECurrentToBest on populations with duplicated individuals; (3) SUS with scripted draws at the edges of [0,1) "
           "(Random::with_rng); (4) the public helpers proportional_weights / reverse_rank / objective_bounds compared "
           "directly on random objective lists; (5) selection pressure: 3 members with distinct objectives, 6000 draws per "
-          "fitness-based operator, 5-sigma ordering test; (6) a 'malformed' stream (empty stack, unevaluated members, "
+          "fitness-based operator, 5-sigma ordering test; (5b) an 'extreme' stream (finite objectives/offsets around 1e308 whose "
+          "weight arithmetic overflows to inf/NaN) on which only the model's prediction is compared; (6) a 'malformed' stream (empty stack, unevaluated members, "
           "negative/NaN offset, base outside [eps,1), y outside {1,2}) on which only the model's predicted Err/panic is "
           "compared. A case is non-trivial if it is not in the malformed stream and its population / objective list has "
           "at least 2 members; distinct = distinct input string."),
@@ -52,7 +53,8 @@ CONFIG.update(
     level_note=("Trusted: Lean kernel; contracts of rand's sampling primitives; list semantics of iterator adaptors; harness + "
                 "driver parsing/printing. partial: the distributions of the samplers (only the 5-sigma ordering test looks at "
                 "frequencies), floating-point rounding/overflow in the weight arithmetic (theorems are exact arithmetic; the "
-                "Float model is compared with the code on the generated cases only), WeightedIndex internals. Side findings "
+                "Float model is compared with the code on the generated cases only), WeightedIndex internals; on the 'extreme' stream RouletteWheel panics ('Uniform::new: range overflow') when the weight "
+                "total overflows (e.g. objectives 0, 0, 5e307, 5e307, 1, -1 with offset 1) — predicted by the model, not judged. Side findings "
                 "outside the property statement (Lean counterexamples proportional_weights_lt_offset, "
                 "proportional_weights_not_normalized): proportional_weights returns weight 1 < offset for all-equal non-positive "
                 "objectives with offset > 1, and ignores `normalize` for all-positive objectives."),
